@@ -139,6 +139,26 @@ fn main() {
             sim::write_trace(&out, &lines);
             println!("{}", json!({"summary": {"scenarios": n, "lines": lines.len()}}));
         }
+        "probecases" => {
+            let path = a.get("cases").cloned().unwrap_or_default();
+            let text = std::fs::read_to_string(&path).expect("cases file");
+            let all: Vec<&str> = text.lines().filter(|l| !l.trim().is_empty()).collect();
+            let from: usize = a.get("from").and_then(|s| s.parse().ok()).unwrap_or(1);
+            let to: usize = a.get("to").and_then(|s| s.parse().ok()).unwrap_or(all.len()).min(all.len());
+            let stride: usize = a.get("stride").and_then(|s| s.parse().ok()).unwrap_or(1).max(1);
+            let mut lines = Vec::new();
+            let mut n = 0;
+            let mut id = from;
+            while id <= to {
+                let case: serde_json::Value = serde_json::from_str(all[id - 1]).expect("case json");
+                let starts: Vec<u64> = case["start"].as_array().expect("start").iter().map(|x| x.as_u64().unwrap_or(0)).collect();
+                lines.extend(conflict::scenario_peers_at(id as u64 * 2, seed, thorough, Some(starts)));
+                n += 1;
+                id += stride;
+            }
+            sim::write_trace(&out, &lines);
+            println!("{}", json!({"summary": {"scenarios": n, "lines": lines.len()}}));
+        }
         "apiguard" => {
             let path = a.get("cases").cloned().unwrap_or_default();
             let text = std::fs::read_to_string(&path).expect("cases file");
